@@ -158,4 +158,23 @@ def runRpc : List (Arrival M E) → RpcOutcome M E
 def mcastRemaining (sent k : Nat) : Nat := sent - k
 def mcastReturns (noSendWaiting : Bool) (sent k : Nat) : Bool := noSendWaiting || mcastRemaining sent k == 0
 
+/-- what the wait loop of a one-way call (`for ; sentMsgs > 0; sentMsgs-- { select { replyChan | ctx.Done } }`)
+    can receive: the confirmation that one message has been handed to its stream, or the context's end -/
+inductive WaitEvent where
+  | confirmed | ctxDone
+  deriving Repr, DecidableEq
+
+/-- has the wait loop returned after these events (`sent` messages were handed to node channels)?  It returns
+    when every message is confirmed, or at once when the context ends (`waitsCtx`: the loop has that case —
+    read from the tree) -/
+def waitLoop (waitsCtx : Bool) : Nat → List WaitEvent → Bool
+  | 0, _ => true
+  | _ + 1, [] => false
+  | n + 1, .confirmed :: es => waitLoop waitsCtx n es
+  | n + 1, .ctxDone :: es => if waitsCtx then true else waitLoop waitsCtx (n + 1) es
+
+/-- a one-way call: with no-send-waiting it returns at once, else it runs the wait loop -/
+def onewayReturns (noSendWaiting waitsCtx : Bool) (sent : Nat) (es : List WaitEvent) : Bool :=
+  noSendWaiting || waitLoop waitsCtx sent es
+
 end GorumsV.ReplyLoop
